@@ -2,11 +2,11 @@
     required flag, ListElement nesting) and every value that convert delivers unchanged (what an instance can hold).
     Decimals: equal sign, coefficient AND exponent.  [value_wf]: a PDec stands for a decimal.Decimal object (representable by libmpdec).
     The one spelled-out deviation, a Python bool held by an Integer, is Integer_bool_reads_back_as_int. *)
-From OfxV Require Import Base.Prelude Base.Digits Gen.ScalarsGen Model.PyDecimal Model.Scalars Model.ScalarsLex Proofs.ScalarsText Proofs.PyDecimalProofs Proofs.ScalarsProofs Proofs.ScalarsLexProofs.
+From OfxV Require Import Base.Prelude Base.Digits Gen.ScalarsGen Model.PyDecimal Model.Scalars Model.ScalarsLex Proofs.ScalarsText Proofs.PyDecimalProofs Proofs.ScalarsProofs Proofs.ScalarsLexProofs Proofs.ScalarsThms.
 Local Open Scope N_scope.
 Theorem T_convert_unconvert : forall e v w s w',
   value_wf v -> ~ bool_in_integer (elem_sty e) v ->
   convert e v = OK (v, w) -> unconvert e v = OK (Some s, w') ->
   convert e (PStr s) = OK (v, w').
-Proof. intros e v w s w'. rewrite !convert_elem, unconvert_elem. apply convert_unconvert_sty. Qed.
+Proof. exact T_convert_unconvert_l. Qed.
 Print Assumptions T_convert_unconvert.
